@@ -338,8 +338,13 @@ def c10_oracle(full, io, b):
     return out
 
 
-register(Prop("C10", c10_streams, compare=lambda op: op.startswith("cmp"), oracle=c10_oracle,
-              assumptions=["comparison with non-URL objects (NotImplemented dispatch) is Python machinery outside the model; checked in extras"]))
+def c10_extra(scratch, rng, tier, budget):
+    import extras
+    return extras.run_dyn_probe(scratch, "C10")
+
+
+register(Prop("C10", c10_streams, compare=lambda op: op.startswith("cmp"), oracle=c10_oracle, extra=c10_extra,
+              assumptions=["comparison with non-URL objects (NotImplemented dispatch, reflected methods) is modelled in YarlModel/Dyn.lean and tied by the dyn probe table; the worker also probes it on every comparison"]))
 
 
 # ------------------------------------------------------------------ C11
@@ -627,7 +632,12 @@ def c12_streams(rng, tier, budget):
     yield "query-ops", st
 
 
-register(Prop("C12", c12_streams, compare=obs_filter(C12_OBS), oracle=c12_oracle,
+def c12_extra(scratch, rng, tier, budget):
+    import extras
+    return extras.run_dyn_probe(scratch, "C12")
+
+
+register(Prop("C12", c12_streams, compare=obs_filter(C12_OBS), oracle=c12_oracle, extra=c12_extra,
               assumptions=["str(float) is taken from Python and passed through the protocol as text (never compared as a float)",
                            "multidict 6.2 MultiDict.update is modelled by hand (Query.lean mdUpdate), tied by correspondence"]))
 
